@@ -84,7 +84,7 @@ def plan(tier, seed):
             'required_classes': ['tok:macro', 'tok:char', 'tok:comment', 'tok:brace_open',
                                  'tok:brace_close', 'tok:specials', 'tok:mathmode_inline',
                                  'tok:mathmode_display', 'tok:begin_environment',
-                                 'tok:end_environment']}
+                                 'tok:end_environment', 'token-list-reader', 'interference-pass']}
 
 
 _CTX = {}
@@ -344,8 +344,72 @@ def check_interference(s, cfg, res, case):
     res.label('interference-pass')
 
 
+def check_token_list_reader(s, cfg, res, case):
+    """LatexTokenListTokenReader over the tokens of the string: the same reading protocol (peek
+    does not move, next = peek + move past, move_to_token / move_past_token address a token)"""
+    from pylatexenc.latexnodes import (LatexTokenReader, LatexTokenListTokenReader,
+                                       LatexWalkerEndOfStream, LatexWalkerTokenParseError)
+    ps = parsing_state(s, cfg)
+    r = LatexTokenReader(s, tolerant_parsing=True)
+    toks = []
+    try:
+        for _ in range(len(s) + 2):
+            toks.append(r.next_token(ps))
+    except (LatexWalkerEndOfStream, LatexWalkerTokenParseError):
+        pass
+    if not toks:
+        return
+    res.case()
+    case = dict(case, token_list=True)
+    try:
+        lr = LatexTokenListTokenReader(list(toks))
+        for i, t in enumerate(toks):
+            if lr.cur_pos() != t.pos:
+                res.fail('c11:token-list-reader:cur_pos', '%r: before token %d cur_pos() = %r, token '
+                         'starts at %r' % (s, i, lr.cur_pos(), t.pos), case)
+                return
+            p1, p2 = lr.peek_token(ps), lr.peek_token(ps)
+            n = lr.next_token(ps)
+            if p1 is not t or p2 is not t or n is not t:
+                res.fail('c11:token-list-reader:sequence', '%r: token %d: peeks / next do not return '
+                         'the list item' % (s, i), case)
+                return
+        for fn in (lr.peek_token, lr.next_token):
+            try:
+                fn(ps)
+                res.fail('c11:token-list-reader:no-end-of-stream', '%r' % s, case)
+                return
+            except LatexWalkerEndOfStream:
+                pass
+        if lr.final_pos() != toks[-1].pos_end:
+            res.fail('c11:token-list-reader:final_pos', '%r: %r' % (s, lr.final_pos()), case)
+        for i, t in enumerate(toks):
+            lr.move_to_token(t)
+            if lr.next_token(ps) is not t:
+                res.fail('c11:token-list-reader:move_to_token', '%r token %d' % (s, i), case)
+                return
+            lr.move_past_token(t)
+            if i + 1 < len(toks):
+                if lr.peek_token(ps) is not toks[i + 1]:
+                    res.fail('c11:token-list-reader:move_past_token', '%r token %d' % (s, i), case)
+                    return
+            else:
+                try:
+                    lr.peek_token(ps)
+                    res.fail('c11:token-list-reader:move_past_last', '%r' % s, case)
+                    return
+                except LatexWalkerEndOfStream:
+                    pass
+    except Exception as e:
+        res.fail(exc_key(e), exc_detail(e) + ' (token list reader on %r)' % s, case)
+        return
+    res.label('token-list-reader')
+
+
 def check_both(s, cfg, res, case, count=True):
     check_interference(s, cfg, res, case)
+    if cfg is BASE_CONFIGS[0] or cfg == BASE_CONFIGS[0]:
+        check_token_list_reader(s, cfg, res, case)
     ks = None
     for tolerant in (False, True):
         k = check_string(s, cfg, tolerant, res, dict(case, tolerant=tolerant))
@@ -399,7 +463,9 @@ def run_shard(shard, res):
 
 def check_case(case, res):
     s = ''.join(case['tokens'])
-    if case.get('interference'):
+    if case.get('token_list'):
+        check_token_list_reader(s, case['cfg'], res, case)
+    elif case.get('interference'):
         check_interference(s, case['cfg'], res, case)
     elif 'tolerant' in case:
         check_string(s, case['cfg'], case['tolerant'], res, case)
